@@ -11,10 +11,14 @@ import (
 	"flag"
 	"math/rand"
 	"os"
+	"runtime/debug"
 	"sort"
 	"strconv"
 	"strings"
 	"time"
+
+	"github.com/emirpasic/gods/v2/queues/circularbuffer"
+	"github.com/emirpasic/gods/v2/trees/btree"
 )
 
 func nowNanos() int64 { return time.Now().UnixNano() }
@@ -83,6 +87,8 @@ func main() {
 		startCapture(*out + ".cap")
 	}
 	startWatchdog()
+	startIntent()
+	debug.SetMaxStack(256 << 20) // a runaway recursion dies in a second, not after a gigabyte
 	budget := 90 * time.Second
 	if *tier == "thorough" {
 		budget = 15 * time.Minute
@@ -182,6 +188,14 @@ func jobMap(j *jobCtx) {
 		if !j.want(k) {
 			continue
 		}
+		if k == "btree" {
+			for _, bad := range []int{2, 1, 0, -3} {
+				bad := bad
+				cfg := (&mapInst{kind: k, cmp: "nat", m: bad}).Cfg()
+				newBad("map", k, cfg, bad, func() { btree.NewWith[int, V](bad, cmpInt("nat")) })
+				newBad("map", k, cfg, bad, func() { btree.New[int, V](bad) })
+			}
+		}
 		for _, c := range mapTourCfgs(k, j.quick()) {
 			u := &mapUniverse{kind: k, cmp: c.cmp, vcmp: c.vcmp, m: c.m, nk: c.nk, nv: c.nv, shape: true, ctr: &ctr}
 			s, e := tour(u, j.maxStates())
@@ -254,6 +268,10 @@ func jobQue(j *jobCtx) {
 		}
 		caps := []int{0}
 		if k == "circularbuffer" {
+			for _, bad := range []int{0, -1, -1 << 40} {
+				bad := bad
+				newBad("que", k, Ev{"zero": 0, "disc": "ring", "cap": clamp(bad)}, bad, func() { circularbuffer.New[int](bad) })
+			}
 			caps = []int{1, 2, 3, 4}
 			if !j.quick() {
 				caps = []int{1, 2, 3, 4, 5, 6}
